@@ -176,6 +176,13 @@ def recursive_int(fn):
     return fn
 
 
+def rec_app(fn, *args):
+    """The value of a `@recursive` / `@recursive_int` / `@recursive_str` spec function at the given arguments
+    WITHOUT its defining equation being assumed at this call (in proofs: only the application term) -- for
+    clauses that are assumed where the unfolding is not wanted (postconditions at call sites)."""
+    return fn(*args)
+
+
 def forall_keys(d, pred):
     """pred(k) for every key k of the dict d (in proofs: a universally quantified key of the symbolic map)"""
     return all(pred(k) for k in list(d))
